@@ -45,14 +45,18 @@ EVAL_COMMON_ASSUME = [
 
 prop("C01", engine="eval", prefixes=["C01."], level="model_checking",
      mc=("MxEval", "MC_MxEval_quick.cfg", "MC_MxEval_thorough.cfg"),
-     jobs=lambda tier: [("eval", dict()), ("eval", dict(gen=dict(p_uncached=0.0)))],
-     quick=dict(traces=96, nops=25), thorough=dict(traces=2400, nops=40))
+     jobs=lambda tier: [("eval", dict()), ("eval", dict(gen=dict(p_uncached=0.0))),
+                        ("dyn", dict(_worker="make_dyn_trace")),
+                        ("inherit", dict(_worker="make_inh_trace"))],
+     quick=dict(traces=128, nops=25), thorough=dict(traces=3200, nops=40))
 prop("C02", engine="eval", prefixes=["C02."], level="model_checking",
      mc=("MxEval", "MC_MxEval_quick.cfg", "MC_MxEval_thorough.cfg"),
      mbt_extra={"quick": ["MBT_MxEval_cee.cfg"], "thorough": ["MBT_MxEval_cee.cfg"]},
      mbt_extra_limit={"quick": 2500, "thorough": 60000},
-     jobs=lambda tier: [("edit", dict()), ("flags", dict())],
-     quick=dict(traces=128, nops=30), thorough=dict(traces=3200, nops=45))
+     jobs=lambda tier: [("edit", dict()), ("flags", dict()),
+                        ("dyn", dict(_worker="make_dyn_trace")),
+                        ("inherit", dict(_worker="make_inh_trace"))],
+     quick=dict(traces=160, nops=30), thorough=dict(traces=4000, nops=45))
 prop("C05", engine="eval", prefixes=["C05."], level="model_checking",
      mc=("MxEval", "MC_MxEval_quick.cfg", "MC_MxEval_thorough.cfg"),
      jobs=lambda tier: [("fail", dict(gen=dict(p_raise=0.2, p_none=0.1, p_catch=0.2, p_base_exc=0.3))),
@@ -62,12 +66,19 @@ prop("C05", engine="eval", prefixes=["C05."], level="model_checking",
 prop("C06", engine="eval", prefixes=["C06."], level="model_checking",
      mc=("MxEval", "MC_MxEval_quick.cfg", "MC_MxEval_thorough.cfg"),
      jobs=lambda tier: [("value", dict(gen=dict(p_uncached=0.1, p_catch=0.0))),
-                        ("value", dict(gen=dict(p_uncached=0.1, p_catch=0.0), recalc=True))],
-     quick=dict(traces=96, nops=30), thorough=dict(traces=2400, nops=45))
+                        ("value", dict(gen=dict(p_uncached=0.1, p_catch=0.0), recalc=True)),
+                        # assigned values under inheritance and inside ItemSpaces, both settings
+                        ("inherit", dict(_worker="make_inh_trace")),
+                        ("dyn", dict(_worker="make_dyn_trace")),
+                        ("inherit", dict(_worker="make_inh_trace", recalc=True)),
+                        ("dyn", dict(_worker="make_dyn_trace", recalc=True))],
+     quick=dict(traces=144, nops=30), thorough=dict(traces=3600, nops=45))
 prop("C08", engine="eval", prefixes=["C08."], level="model_checking",
      mc=("MxEval", "MC_MxEval_quick.cfg", "MC_MxEval_thorough.cfg"),
-     jobs=lambda tier: [("eval", dict()), ("fail", dict(gen=dict(p_raise=0.15, p_catch=0.15)))],
-     quick=dict(traces=96, nops=25), thorough=dict(traces=2400, nops=40))
+     jobs=lambda tier: [("eval", dict()), ("fail", dict(gen=dict(p_raise=0.15, p_catch=0.15))),
+                        ("dyn", dict(_worker="make_dyn_trace")),
+                        ("inherit", dict(_worker="make_inh_trace"))],
+     quick=dict(traces=128, nops=25), thorough=dict(traces=3200, nops=40))
 prop("C09", engine="eval", prefixes=["C09."], level="model_checking",
      mc=("MxEval", "MC_MxEval_quick.cfg", "MC_MxEval_thorough.cfg"),
      mbt_extra={"quick": ["MBT_MxEval_cfe.cfg"], "thorough": ["MBT_MxEval_cfe.cfg", "MBT_MxEval_cee.cfg"]},
